@@ -171,3 +171,17 @@ package main
 //@   requires in != nil
 //@   modifies in.$rem
 //@   ensures#nonnil err == nil ==> r != nil                                                                         [C14]
+
+// ---- C10: the CLI's passphrase identity refuses mixed headers before prompting
+
+//@ func (*LazyScryptIdentity).Unwrap(i, stanzas) (fileKey, err)
+//@   requires i != nil && (forall j in 0..len(stanzas) :: stanzas[j] != nil)
+//@   loop 1 invariant#idx -1 <= rangeindex && rangeindex < len(stanzas)
+//@   loop 1 invariant#noscrypt len(stanzas) != 1 ==> (forall j in 0..rangeindex+1 :: stanzas[j].Type != "scrypt")               [C10]
+//@   loop 1 invariant#quiet $ppcalls == old($ppcalls) && $scryptcalls == old($scryptcalls)                                      [C10]
+//@   loop 1 decreases len(stanzas) - rangeindex
+//@   ensures#alone (len(stanzas) != 1 && (exists j in 0..len(stanzas) :: stanzas[j].Type == "scrypt")) ==> fileKey == nil && err != nil && !wraps(err, age.ErrIncorrectIdentity) && $ppcalls == old($ppcalls) && $scryptcalls == old($scryptcalls)   [C10]
+//@   ensures#foreign (len(stanzas) != 1 || stanzas[0].Type != "scrypt") ==> fileKey == nil && err != nil && $ppcalls == old($ppcalls) && $scryptcalls == old($scryptcalls)   [C04 C10]
+//@   ensures#once $ppcalls <= old($ppcalls) + 1                                                                                 [C10]
+//@   ensures#nil err != nil ==> fileKey == nil                                                                                  [C04 C14]
+//@   call Unwrap#1 requires same(arg1, stanzas)                                                                                 [C10]
